@@ -179,7 +179,9 @@ def emit(t):
     out.append("    }")
     out.append("}")
     required = sum(1 for f in live if not f["default"])
-    return "\n".join(out), required
+    # Ok is reachable with n members iff the required fields fit and (under deny) all n keys can be known
+    maxn = len(live) if t["deny"] else 99
+    return "\n".join(out), (required, maxn)
 
 
 def main():
@@ -191,17 +193,17 @@ def main():
     rng = random.Random(1000003 * a.seed + 17)
     parts = ["//! GENERATED by tools/gen_catalogue.py --seed %d --n %d — do not edit." % (a.seed, a.n),
              "#![allow(non_snake_case)]",
-             "use crate::catalogue::*;\nuse crate::model::*;\nuse crate::props::*;\nuse crate::rec::*;\nuse crate::stubs::fmt_stub;\nuse crate::vsrc::*;\nuse deserr::Deserr;\n"]
+             "use crate::catalogue::*;\nuse crate::model::*;\nuse crate::props::*;\nuse crate::rec::*;\nuse crate::stubs::fmt_stub;\nuse crate::vsrc::*;\nuse crate::{filled, filled_or};\nuse deserr::Deserr;\n"]
     harness = []
     for i in range(a.n):
         t = gen_type(rng, i)
-        code, required = emit(t)
+        code, (required, maxn) = emit(t)
         parts.append(code)
         n = len(t["tab"])
         nm = t["name"].lower()
-        harness.append("hg!(c02_t_%s_m2, sk_obj(&%s_TAB, 2, %d), p_cat::<%s>(%s, true));" % (nm, t["name"], n, t["name"], "true" if required <= 2 else "false"))
+        harness.append("hg!(c02_t_%s_m2, sk_obj(&%s_TAB, 2, %d), p_cat::<%s>(%s, true));" % (nm, t["name"], n, t["name"], "true" if required <= 2 <= maxn else "false"))
         if i < 2:
-            harness.append("hg!(c02_t_%s_m3, sk_obj(&%s_TAB, 3, %d), p_cat::<%s>(%s, true));" % (nm, t["name"], n, t["name"], "true" if required <= 3 else "false"))
+            harness.append("hg!(c02_t_%s_m3, sk_obj(&%s_TAB, 3, %d), p_cat::<%s>(%s, true));" % (nm, t["name"], n, t["name"], "true" if required <= 3 <= maxn else "false"))
     parts.append("""
 macro_rules! hg {
     ($name:ident, $sk:ident($($a:expr),*), $p:ident::<$t:ty>($($b:expr),*)) => {
